@@ -24,7 +24,8 @@ func vPlainFileName(name string) bool {
 // VerifC19_Names: file names are plain, distinct and every link resolves, for hostile pointers and
 // names. cs: 0 source pointer symbolic, 1 individual pointer symbolic, 2 surname symbolic,
 // 3 place symbolic, 4 two people whose names collapse to the same key, 5 a place named like a page,
-// 6 and 7 people and places named like the per-letter index pages, 8 surnames starting with non-ASCII letters.
+// 6 and 7 people and places named like the per-letter index pages, 8 surnames starting with non-ASCII letters,
+// 9 a person named like a place (and places whose names collapse to one key).
 func VerifC19_Names(cs int) {
 	sym2 := VsBytes("h", 2, 0x21, 0x7e)
 	text := vDeadFamily
@@ -47,6 +48,10 @@ func VerifC19_Names(cs int) {
 	case 8:
 		// surnames that start with letters outside ASCII
 		text += "0 @I3@ INDI\n1 NAME \xc3\x85sa /\xc3\x96stberg/\n1 BIRT\n2 PLAC \xc3\x85re, Sverige\n1 DEAT\n0 @I4@ INDI\n1 NAME \xc3\x89mile /\xc3\x89tienne/\n1 DEAT\n0 @I5@ INDI\n1 NAME Jos\xc3\xa9 /\xc3\xb1and\xc3\xba/\n1 DEAT\n"
+	case 9:
+		// a person whose name may collapse to the key of a place (the first letter by choice)
+		// (by choice: names that are symbolic are not compared below)
+		text += "0 @I3@ INDI\n1 NAME " + []string{"L", "l", "M", "London "}[VsChoose("initial", 4)] + "ondon /England/\n1 BIRT\n2 PLAC London, England\n1 DEAT\n0 @I4@ INDI\n1 NAME Jo /Young/\n1 BIRT\n2 PLAC London England\n1 DEAT\n2 PLAC LONDON, england\n"
 	case 6:
 		// people and a place named like the index pages
 		text += "0 @I3@ INDI\n1 NAME Individuals /Smith/\n1 DEAT\n0 @I4@ INDI\n1 NAME Individuals /A/\n1 BIRT\n2 PLAC individuals symbol\n1 DEAT\n"
